@@ -132,6 +132,7 @@ class _RedisConsumer(ConsumerT):
                     offset - self.PREFETCH_AMOUNT,  # range from the end of the queue
                     offset - 1,
                 )
+                names.reverse()  # new messages are pushed to the left, so the oldest one is the last
                 offset -= self.PREFETCH_AMOUNT  # reversed offset
 
         elif not force_delayed:
